@@ -440,7 +440,7 @@ impl<T: Qcow2IoOps> Qcow2Dev<T> {
         Ok(())
     }
 
-    async fn flush_cache<C: Table>(
+    pub(crate) async fn flush_cache<C: Table>(
         &self,
         cache: &AsyncLruCache<usize, AsyncRwLock<C>>,
         start: usize,
